@@ -31,7 +31,12 @@ ANG_SPECIAL = [0.0, math.pi / 2, math.pi, 3 * math.pi / 2, 2 * math.pi, -math.pi
 
 
 def rand_point(rng):
-    k = rng.integers(0, 6)
+    k = rng.integers(0, 7)
+    if k == 6:
+        # within 1e-12 ... 1e-3 rad of a quadrant boundary of the azimuth (notably just below 2 pi), any magnitude and height
+        rho = float(10.0 ** rng.uniform(-9, 9))
+        phi = float(rng.choice([0.0, math.pi / 2, math.pi, 3 * math.pi / 2])) + float(rng.choice([-1, 1])) * float(10.0 ** rng.uniform(-12, -3))
+        return [rho * math.cos(phi), rho * math.sin(phi), float(rng.choice([0.0, rng.normal() * rho]))]
     if k == 0:
         return [float(rng.choice(SPECIAL)) for _ in range(3)]
     if k == 1:
